@@ -10,15 +10,37 @@ Layer S (engine S): the shutdown call races one executor worker that is inside a
 import gc
 
 from vt import explore, sched
+from vt.core import Part, jsonable
 from vt import c45lib   # noqa: F401  imported here so that forked workers inherit the loaded driver
 
 META = {
     'level': 'model_checking',
     'engine': 'E+S',
-    'technique': 'explicit-state BFS over event histories with a shutdown injected in every reachable state, plus '
-                 'preemption-bounded schedule exploration of the shutdown call racing a connecting executor task',
-    'text': 'TODO',
-    'note': 'TODO',
+    'technique': 'explicit-state BFS over event histories of the real Cluster/Session with a shutdown injected in every reachable state '
+                 '(canonical-state dedup), plus preemption-bounded line-granular schedule exploration of the shutdown call racing '
+                 'executor tasks that are opening connections and racing Cluster.connect()',
+    'text': 'Real Cluster + Session over the virtual server (2 nodes, +1 joining; protocol v4; every executor task, scheduler entry, '
+            'connection timer and held answer is an explorer event).  Layer E: five scenarios (requests in flight / timing out; pool '
+            'connection replacement after the orphaned-stream threshold, old connection trashed; node down -> reconnection attempts -> '
+            'node up -> pool re-creation; control-connection node down -> control reconnect; node joining / status events), all histories '
+            'to depth 6-9 (thorough 8-11, either of the first two queued tasks first); Cluster.shutdown() and Session.shutdown() are '
+            'injected in EVERY reachable state and exploration continues behind them.  Layer S: client thread calling shutdown vs one '
+            '(thorough: also two) executor worker thread(s) running a queued HostConnection._replace / _HostReconnectionHandler.run / '
+            'run_add_or_renew_pool / ControlConnection._reconnect plus a reactor thread delivering the handshake and query answers '
+            '(connection accepted, or first attempt refused), every virtual primitive and every source line of the connect / reconnect '
+            '/ replace / shutdown functions a scheduling point, all schedules with <= 1 preemption; and Cluster.connect() in one client '
+            'thread vs Cluster.shutdown() in another from an unconnected cluster (all schedules without preemption, i.e. switches at '
+            'blocking points; thorough: + 1 preemption under a per-subtree cap).  Oracle, evaluated behind every shutdown after the '
+            'default drain (answers delivered, queued tasks run, scheduler entries fired or dropped as _Scheduler would): every '
+            'connection ever opened (control, pool, replacement, reconnection probe) is closed -- for Session.shutdown() every pool '
+            'connection of the session, and everything after the following Cluster.shutdown(); no activity that started after the call '
+            'returned opened a connection; execute_async() after the shutdown raises or fails (not sent, not pending); '
+            'Cluster.connect() after Cluster.shutdown() raises; the shutdown call itself does not raise or deadlock.',
+    'note': 'Trusted: the virtual world (vt/world: clock, executor = FIFO queue whose shutdown(wait=True) runs what is queued like '
+            'ThreadPoolExecutor, scheduler with the drop-after-shutdown rule of cluster._Scheduler, VConnection implementing only what '
+            'every shipped reactor implements).  Layer E handlers are atomic; preemption inside them is layer S at source-line '
+            'granularity.  Connection.orphaned_threshold is lowered to 1 on the harness connection class to reach the replacement path.  '
+            'Requests that were in flight when the shutdown was called are not judged (the statement is about new requests).',
     'design_ref': 'C45',
 }
 
@@ -103,8 +125,8 @@ class H(explore.Harness):
         conns = tuple((c.vid, c.creator, c.endpoint.address, c.opened, c.is_closed, c.is_defunct, c.in_flight,
                        len(c.orphaned_request_ids), c.orphaned_threshold_reached, c.open_phase, c.handshake_phase,
                        tuple(sorted(c._requests.keys()))) for c in w.conns)
-        pools = tuple(sorted((str(h.endpoint), p.is_shutdown, p._is_replacing,
-                              p._connection.vid if p._connection is not None else None,
+        pools = tuple(sorted((str(h.endpoint), p.is_shutdown, getattr(p, '_is_replacing', None), getattr(p, '_scheduled_for_creation', None),
+                              tuple(c.vid for c in p.get_connections()), getattr(p, 'open_count', None),
                               tuple(sorted(c.vid for c in p._trash))) for h, p in se._pools.items()))
         hosts = tuple(sorted((str(h.endpoint), h.is_up, h._reconnection_handler is not None and not h._reconnection_handler._cancelled,
                               h._currently_handling_node_up) for h in cl.metadata.all_hosts()))
@@ -155,20 +177,26 @@ class H(explore.Harness):
 
 # ------------------------------------------------------------------------------ configurations
 def e_configs(ctx):
-    both = ('cluster', 'session')
+    t = ctx.thorough
+    tw = 2 if t else 1          # the real executor has two workers: either of the first two queued tasks may run first
     q = [
-        # requests in flight / timing out / new requests
-        ('requests', dict(scenario='requests', alphabet=['exec', 'respond', 'timer'], max_exec=2), 6),
-        # orphaned-stream threshold 1: a client timeout makes the pool replace its connection
-        ('replace', dict(scenario='replace', hosts=1, orphaned_threshold=1, alphabet=['exec', 'respond', 'timer'], max_exec=3), 8),
-        # a node dies with a request in flight: on_down, reconnector, probes, node back: on_up, new pool
-        ('reconnect', dict(scenario='reconnect', alphabet=['kill', 'revive', 'sched'], prefix=[('exec',), ('exec',)], max_exec=2,
-                           killable=(1,)), 9),
-        # the control connection's node dies: control reconnect
+        # requests in flight / timing out, new requests
+        ('requests', dict(scenario='requests', alphabet=['exec', 'respond', 'timer'] + (['exec_after'] if t else []), max_exec=2,
+                          task_window=tw), 8 if t else 6),
+        # orphaned-stream threshold 1: a client timeout makes the pool replace its connection (old one trashed or closed)
+        ('replace', dict(scenario='replace', hosts=1, orphaned_threshold=1, alphabet=['exec', 'respond', 'timer'], max_exec=3,
+                         task_window=tw), 9 if t else 8),
+        # a node dies with a request in flight: on_down, reconnector, probes; node back: on_up, new pool
+        ('reconnect', dict(scenario='reconnect', alphabet=['kill', 'revive', 'sched'] + (['push'] if t else []),
+                           prefix=[('exec',), ('exec',)], max_exec=2, killable=(1,), task_window=tw), 11 if t else 9),
+        # the control connection's node dies: control connection reconnect (+ its reconnection handler when nobody is up)
         ('control', dict(scenario='control', alphabet=['kill', 'revive', 'sched'], prefix=[('exec',), ('exec',)], max_exec=2,
-                         killable=(0,)), 8),
-        # a third node joins: refresh, on_add, pool creation
-        ('addnode', dict(scenario='addnode', alphabet=['addnode', 'sched', 'push'], killable=(1,)), 6),
+                         killable=(0, 1) if t else (0,), task_window=tw), 10 if t else 8),
+        # protocol v2, legacy HostConnectionPool (1..2 connections per host, a second one is opened when the first is busy)
+        ('legacy', dict(scenario='legacy', protocol_version=2, legacy_pool=(1, 2, 1), alphabet=['exec', 'respond', 'timer'], max_exec=3,
+                        task_window=tw), 8 if t else 6),
+        # a third node joins (NEW_NODE): refresh, on_add, pool creation; UP/DOWN status events
+        ('addnode', dict(scenario='addnode', alphabet=['addnode', 'sched', 'push'], killable=(1,), task_window=tw), 8 if t else 6),
     ]
     return q
 
@@ -191,9 +219,16 @@ def s_harness(params, prefix, part):
         for ev in params.get('prefix', ()):
             st.apply(tuple(ev))
         if params.get('server') == 'refuse':
-            for hs in st.srv.hosts:
-                if hs.address in params.get('refusing', ()):
-                    hs.up = False
+            # the first connection attempt made from now on is refused by the node, later ones are accepted
+            real_on_connect, left = st.srv.on_connect, [1]
+
+            def on_connect(conn):
+                real_on_connect(conn)
+                if left[0] > 0:
+                    left[0] -= 1
+                    conn.world.trace('conn.refused', conn.vid)
+                    raise OSError(111, 'Tried connecting to [(%r, 9042)]. Last error: Connection refused' % (conn.endpoint.address,))
+            st.srv.on_connect = on_connect
         s = sched.Scheduler(prefix, focus=_FOCUS, horizon=params.get('horizon', 60000), clock=st.w.clock)
         kind = params['kind']
         clients = [('shutdown', lambda: st.shutdown(kind))]
@@ -220,6 +255,7 @@ def s_harness(params, prefix, part):
         if nontrivial:
             part.mark_nontrivial(repr(('S', params['scenario'], kind, params.get('server'), s.choices())))
         part.count('judged_states')
+        part.count('S_executions')
         flags = sorted(k for k, v in trk.at_shutdown.items() if v)
         for k in flags:
             part.count('S_injected_with_%s' % k)
@@ -241,40 +277,133 @@ def s_harness(params, prefix, part):
 
 
 def s_configs(ctx):
+    """[(params, preemption bound, execution cap per subtree or None)]"""
     to_probe = [('exec',), ('exec',), ('kill', 1), ('task', 0), ('task', 0), ('task', 0), ('revive', 1), ('sched',)]
     base = [
-        ('replace', dict(hosts=1, orphaned_threshold=1, prefix=[('exec',), ('timer',), ('exec',)], refusing=('10.0.0.1',))),
-        ('probe', dict(prefix=to_probe, refusing=('10.0.0.2',))),
-        ('poolcreate', dict(prefix=to_probe + [('task', 0)], refusing=('10.0.0.2',))),
-        ('control', dict(prefix=[('exec',), ('exec',), ('kill', 0), ('task', 0), ('task', 0)], refusing=('10.0.0.2',))),
+        # orphaned-stream threshold reached: HostConnection._replace is queued
+        ('replace', dict(hosts=1, orphaned_threshold=1, prefix=[('exec',), ('timer',), ('exec',)])),
+        # node was down, is back, the reconnection attempt (_HostReconnectionHandler.run) is queued
+        ('probe', dict(prefix=to_probe)),
+        # the attempt succeeded: Cluster.on_up queued the pool creation (run_add_or_renew_pool)
+        ('poolcreate', dict(prefix=to_probe + [('task', 0)])),
+        # the control connection's node died: ControlConnection._reconnect is queued
+        ('control', dict(prefix=[('exec',), ('exec',), ('kill', 0), ('task', 0), ('task', 0)])),
+        # protocol v2 pool whose only connection is busy: HostConnectionPool._create_new_connection is queued
+        ('legacyspawn', dict(protocol_version=2, legacy_pool=(1, 2, 1), prefix=[('exec',)])),
     ]
     out = []
     for name, p in base:
         for kind in ('cluster', 'session'):
             for server in ('ok', 'refuse'):
-                out.append(dict(p, scenario=name, kind=kind, server=server))
-    out.append(dict(scenario='connect', kind='cluster', server='ok', race_connect=True))
+                if server == 'refuse' and name == 'legacyspawn' and not ctx.thorough:
+                    continue        # the refusal marks the node down: a long cascade (about 6000 executions each)
+                out.append((dict(p, scenario=name, kind=kind, server=server), 1, None))
+    if ctx.thorough:
+        for name, p in base:
+            for kind in ('cluster', 'session'):
+                out.append((dict(p, scenario=name, kind=kind, server='ok', workers=2), 1, None))
+    # Cluster.connect() in one client thread, Cluster.shutdown() in another, from an unconnected cluster
+    for order in ((1, -1) if ctx.thorough else (1,)):
+        out.append((dict(scenario='connect', kind='cluster', server='ok', race_connect=True, future_order=order),
+                    0, None))
+    if ctx.thorough:
+        out.append((dict(scenario='connect', kind='cluster', server='ok', race_connect=True, future_order=1), 1, 150))
     return out
 
 
+def _s_root(args):
+    params, bound, cap = args
+    part = Part()
+    s = s_harness(params, [], part)
+    part.count('executions')
+    part.count('transitions', s.steps)
+    return part, [k for k, _ in sched.children(s.trace, 0, bound)], len(s.trace)
+
+
+def _s_subtree(args):
+    """All executions below one first-level deviation (disjoint from the other subtrees)."""
+    params, bound, cap, prefix = args
+    part = Part()
+    stack, n, maxpts, capped = [prefix], 0, 0, False
+    while stack:
+        if cap is not None and n >= cap:
+            capped = True
+            part.count('S_subtrees_capped')
+            part.cap('c45-S-%s-%s: subtree below %r cut at %d executions (bound %d)' % (params['scenario'], params['kind'], prefix[-3:], cap, bound))
+            break
+        pre = stack.pop()
+        s = s_harness(params, pre, part)
+        n += 1
+        maxpts = max(maxpts, len(s.trace))
+        part.count('executions')
+        part.count('transitions', s.steps)
+        stack.extend(k for k, _ in sched.children(s.trace, len(pre), bound))
+    return part, n, maxpts, capped
+
+
+def run_s(ctx):
+    cfgs = s_configs(ctx)
+    roots = ctx.pmap(_s_root, cfgs)
+    jobs, info = [], {}
+    for (params, bound, cap), (part, kids, npts) in zip(cfgs, roots):
+        ctx.merge(part)
+        name = 'c45-S-%s-%s-%s%s%s-b%d' % (params['scenario'], params['kind'], params['server'],
+                                          '-w2' if params.get('workers') == 2 else '',
+                                          '-newest-first' if params.get('future_order') == -1 else '', bound)
+        info[name] = {'params': jsonable(params), 'preemption_bound': bound, 'executions': 1, 'max_choice_points': npts,
+                      'subtree_cap': cap, 'complete': True}
+        for k in kids:
+            jobs.append((name, (params, bound, cap, k)))
+    jobs = ctx.rotate(jobs)
+    # big subtrees first would need their size; a fine-grained chunking balances well enough
+    results = ctx.pmap(_s_subtree, [j for _, j in jobs], chunksize=max(1, len(jobs) // (ctx.nproc * 16)))
+    for (name, _), (part, n, maxpts, capped) in zip(jobs, results):
+        ctx.merge(part)
+        info[name]['executions'] += n
+        info[name]['max_choice_points'] = max(info[name]['max_choice_points'], maxpts)
+        if capped:
+            info[name]['complete'] = False
+    for name, d in info.items():
+        ctx.cov.setdefault('harnesses', {})[name] = d
+    ctx.count('states', ctx.counters.get('S_executions', 0))
+
+
 def run(ctx):
+    gc.collect()
+    gc.freeze()
     for name, params, depth in e_configs(ctx):
-        explore.bfs(ctx, H, params, max_depth=depth, label='c45-E-' + name, max_states=200000)
+        explore.bfs(ctx, H, params, max_depth=depth, label='c45-E-' + name, max_states=400000)
     explore.close_pool()
-    bound = 1
-    for params in s_configs(ctx):
-        name = 'c45-S-%s-%s-%s' % (params['scenario'], params['kind'], params['server'])
-        n = sched.explore(ctx, name, s_harness, params, bound)
-    ctx.cov['rule'] = 'TODO'
+    t_e = ctx.elapsed()
+    run_s(ctx)
+    ctx.cov['wall_s_by_layer'] = {'E': round(t_e, 1), 'S': round(ctx.elapsed() - t_e, 1)}
+    c = ctx.counters
+    ctx.cov['shutdown_injection_points'] = {
+        'E (distinct canonical pre-shutdown states x {cluster, session})': c.get('shutdown_injection_points', 0),
+        'S (executions; the shutdown thread starts/resumes at a different scheduling point in each)': c.get('S_executions', 0)}
+    ctx.cov['non_vacuity'] = {k: v for k, v in sorted(c.items()) if k.startswith(('injected_with_', 'S_injected_with_', 'histories_with', 'S_histories'))}
+    ctx.cov['rule'] = ('E: state = event history replayed on a fresh real Cluster+Session; every state behind a shutdown event is drained by the '
+                       'default continuation and judged; non-trivial = distinct (scenario, history) at which a shutdown was injected.  '
+                       'S: one execution per schedule within the preemption bound, judged after the threads ended; non-trivial = execution '
+                       'with at least one non-default scheduling choice.  outcomes = (layer, kind, connections still open, ...), probe results.')
+    ctx.assume('"after shutdown" is judged from the moment the shutdown call has returned; what the call itself runs while draining the '
+               'executor (ThreadPoolExecutor.shutdown(wait=True) lets queued tasks run) is part of the call')
+    ctx.assume('Session.shutdown(): the connections the session opened are its pools\' connections (creation and replacement); the '
+               'control connection and host reconnection probes belong to the cluster and are judged after the following Cluster.shutdown()')
+    ctx.assume('event handlers are atomic in layer E (single-threaded histories); preemption inside them is layer S, at source-line granularity')
+    ctx.assume('virtual server answers are well-formed protocol v4 frames; a dead node resets its connections and refuses new ones')
+    ctx.assume('requests in flight when the shutdown is called are outside the statement (only NEW requests must be refused); their fate is recorded as an outcome')
 
 
 def replay(ctx, data):
     if data.get('layer') == 'E':
         part = explore.replay(H, data['params'], [tuple(e) for e in data['history']])
     else:
-        from vt.core import Part
         part = Part()
-        s_harness(data['params'], data['prefix'], part)
+        params = dict(data['params'])
+        if 'prefix' in params:
+            params['prefix'] = [tuple(e) for e in params['prefix']]
+        s_harness(params, data['prefix'], part)
     for fp, what, _ in part.violations:
         print(fp, '::', what)
     return bool(part.violations)
